@@ -562,6 +562,10 @@ func (g *Gen) pickConcurrent(k int) []int {
 		plan := map[int]*wire.Req{}
 		if small >= 0 {
 			for _, c := range bySession[small] {
+				if g.rnd.Intn(3) == 0 { // the connection just goes away
+					chosen = append(chosen, -c)
+					continue
+				}
 				r := g.RequestOf(c, "join")
 				r.Target, r.TargetN = "new", 0
 				if others := sortedKeys(g.w.know.sids); len(others) > 1 && g.rnd.Intn(3) == 0 {
@@ -578,7 +582,7 @@ func (g *Gen) pickConcurrent(k int) []int {
 			if len(chosen) >= k {
 				break
 			}
-			if _, ok := plan[c]; ok {
+			if _, ok := plan[c]; ok || containsInt(chosen, -c) {
 				continue
 			}
 			r := g.RequestOf(c, "join")
@@ -592,7 +596,9 @@ func (g *Gen) pickConcurrent(k int) []int {
 		}
 		sortInts(chosen)
 		for _, c := range chosen {
-			g.w.Recv(c, plan[c])
+			if c > 0 {
+				g.w.Recv(c, plan[c])
+			}
 		}
 		return chosen
 	}
@@ -617,14 +623,18 @@ func (g *Gen) pickConcurrent(k int) []int {
 			case isMember && len(chosen) == 0:
 				plan[c] = relay[g.rnd.Intn(len(relay))]
 			case isMember:
-				plan[c] = []string{"leave", "custom", "entityAdd", "leave", "compUpdate", "unsubscribe", "subscribe"}[g.rnd.Intn(7)]
+				plan[c] = []string{"leave", "custom", "entityAdd", "leave", "compUpdate", "unsubscribe", "subscribe", "hangup"}[g.rnd.Intn(8)]
 			default:
 				plan[c] = "enter"
 			}
 			chosen = append(chosen, c)
 		}
 		sortInts(chosen)
-		for _, c := range chosen {
+		for i, c := range chosen {
+			if plan[c] == "hangup" {
+				chosen[i] = -c
+				continue
+			}
 			var r *wire.Req
 			switch plan[c] {
 			case "leave": // switching to a new session leaves the target
@@ -754,4 +764,13 @@ func sortedKeys(m map[int]bool) []int {
 	}
 	sortInts(out)
 	return out
+}
+
+func containsInt(l []int, x int) bool {
+	for _, y := range l {
+		if y == x {
+			return true
+		}
+	}
+	return false
 }
